@@ -1016,7 +1016,8 @@ Proof. repeat split; vm_compute; reflexivity. Qed.
 Lemma owners_exact ns files s :
   In s (owners ns files) <->
   exists i, i < length ns /\ is_target (attr ns i) = true /\
-            (exists f inp, In f files /\ In inp (ninputs (attr ns i)) /\ input_path (attr ns i) inp = f) /\
+            (exists f inp, In f files /\ In inp (ninputs (attr ns i)) /\
+                           canon_input (lpkg (nlabel (attr ns i))) inp = canon_arg f) /\
             s = print_label (nlabel (attr ns i)).
 Proof.
   unfold owners, owners_idx. rewrite print_sorted_in. split.
